@@ -232,6 +232,22 @@ DETECT.update({
     "C20-j": (["C20"], "DETECTED", "per-subscriber goroutine captures the loop variable: one subscriber gets every delivery, filtered-out subscribers can get one"),
 })
 
+# ---- seventh round (12 properties, ids -k; prompt TEMPLATE7: accumulation / capacity, aliasing, error paths) ----
+DETECT.update({
+    "C01-k": (["C01", "C02"], "MISSED", "needed outputs whose amount is an exact non-zero multiple of 2^64 that are later undone: C01 now runs 2 histories in 3 with genesis amounts beyond 64 bit (as C02 did) and genTxSpec draws output amounts at machine-word boundaries (2^31, 2^32, 2^63, 2^64, the largest available multiple of 2^64)"),
+    "C03-k": (["C03"], "DETECTED", "frozen height of an output that has left the output cache read as 0: a frozen output is spendable, a thawed one refused (detected because the capacity of the output cache had become a drawn input - NodeOpts.UtxoCache 1-4 - earlier in this round, before the change was delivered; with the default capacity of 1000 no generated history evicts anything)"),
+    "C04-k": (["C04"], "DETECTED", "truncation keeps the removed blocks' headers in the header cache: a block on a truncated parent is stored"),
+    "C06-k": (["C06", "C04", "C05"], "MISSED by C06 (C04 and C05 report it at once)", "needed REFUSED confirmations inside the crash scenarios: 1 operation in 7 of the C06 mix is now an adversarial peer block (two award transactions, wrong award, unknown parent, forged award, unsigned transaction, carried tree with other leaves); the image after the next accepted block then holds the refused block"),
+    "C10-k": (["C10"], "DETECTED", "RWSet() memoised while the tree of cached keys does not grow: an overwrite / delete of an already written key after an intermediate RWSet() is missing from the final write set"),
+    "C11-k": (["C11"], "MISSED", "needed signer lists with 8 or more distinct names below one node of the permission tree: new sub-check acl-wide-lists (rapid: lists of up to 40 URIs, up to 24 names below one node - members, outsiders, nested-account paths, foreign paths, repeats at any distance - rules with up to 12 members, weights in quarters; same reference evaluator and metamorphic relations as the exhaustive box)"),
+    "C12-k": (["C12"], "DETECTED", "a refused TryLock gives its keys back itself and still returns them: the caller's deferred Unlock releases another holder's entry (Part A: shared and exclusive holder of one key)"),
+    "C13-k": (["C13"], "DETECTED", "PlayForMiner drops the whole in-memory pool when the block has as many transactions as the pool had at packing time: the one transaction that did not fit disappears from the pool but not from the state (the next block is not replayable)"),
+    "C14-k": (["C14"], "DETECTED", "CheckProposal counts signers in a buffer kept on the verifier and only truncated on the non-error path: members left over from a rejected certificate count towards the next one (reported as 'flaky' by rapid - the verdict depends on the verifier's history - with the first failing certificate as replay file)"),
+    "C16-k": (["C16"], "DETECTED", "SetCompact memoises and returns the shared big.Int: the retarget computation scales the memo entry in place, later blocks with the old bits are judged against a drifted target"),
+    "C19-k": (["C19"], "MISSED", "needed vote amounts that are decorated decimals (leading / trailing blanks, tab, newline, sign, leading zeros): 1 vote in 6 and 4 transfer candidates; the model records what a vote really locked, so the release of more than that is reported (negative lock)"),
+    "C20-k": (["C20"], "MISSED", "needed more than 4096 distinct messages handled by ONE dispatcher inside the de-duplication window: new sub-check dispatch-traffic (4 500 - 9 000 distinct messages to 1-3 subscribers, every message dispatched a second time 0-400 messages later, exactly-once delivery; a repeat is only judged when it was dispatched less than 1 s after the first copy)"),
+})
+
 
 def main():
     for sid in sorted(os.listdir(os.path.join(ROOT, "seeded"))):
